@@ -12,7 +12,7 @@ cd $ROOT/harness
 for c in $cfgs; do
   f=""; case $c in d) f="";; *) f="$c";; esac
   rm -rf $COV/prof-$c; mkdir -p $COV/prof-$c
-  CARGO_TARGET_DIR=$COV/target-$c RUSTFLAGS="-Awarnings -C instrument-coverage" cargo +nightly build --release --offline --quiet ${f:+--features $f}
+  LLVM_PROFILE_FILE=$COV/prof-$c/build-%p.profraw CARGO_TARGET_DIR=$COV/target-$c RUSTFLAGS="-Awarnings -C instrument-coverage" cargo +nightly build --release --offline --quiet ${f:+--features $f}
   for p in $PROPS_ALL; do
     LLVM_PROFILE_FILE=$COV/prof-$c/$p-%p.profraw timeout 600 $COV/target-$c/release/sjh $p quick 1 $COV/stats-$c-$p.json > /dev/null 2>&1 || true
   done
